@@ -27,6 +27,7 @@ def redactStep (t : Tokens) (impl : Option String) : StepOut :=
           ["C14 redact: the full license key appears in the daemon log or the audit log"]
       | none => []
     { model := model, specFails := fails }
+  | "storm" => { model := "ok" }      -- run under the race detector (C17): the op itself only has to complete
   | "proxyerr" =>
     { model := "leak=0", specFails := match impl with
         | some line => if kvGet (tokenize line) "leak" == some "0" then [] else
